@@ -611,4 +611,168 @@ Section Sim.
           { destruct nd; auto. unfold sp_assignable. rewrite EF. reflexivity. }
           destruct ((nonempty (sub_names lv) && str_eqb k s_subcommand) || str_eqb k s_config); auto.
   Qed.
+
+  Lemma apply_docs_sim lv cn mn top ds : lv_wf lv -> forall st asg, inv top lv st asg ->
+    match apply_docs conv (level_args as_pos lv) (sub_names lv) ds st with
+    | Ok st' => exists asg', sp_docs conv as_pos (slv_of lv cn mn) ds asg (ls_pend st) = Some (asg', ls_pend st') /\
+                             inv top lv st' asg' /\ ls_npos st' = ls_npos st
+    | Err EParse => sp_docs conv as_pos (slv_of lv cn mn) ds asg (ls_pend st) = None
+    | Err EUnmodelled => True
+    | Err _ => False
+    end.
+  Proof.
+    intro HW. induction ds as [|d ds IH]; intros st asg HI.
+    - simpl. exists asg. auto.
+    - cbn [apply_docs sp_docs]. pose proof (apply_doc_sim lv cn mn top d HW st asg HI) as HD.
+      destruct (apply_doc conv (level_args as_pos lv) (sub_names lv) d st) as [st1|e]; cbn [bind].
+      + destruct HD as [asg1 [HD1 [HD2 HD3]]]. rewrite HD1.
+        pose proof (IH st1 asg1 HD2) as H2. rewrite HD3 in H2. exact H2.
+      + destruct e; auto. rewrite HD. reflexivity.
+  Qed.
+
+  Lemma init_state_sim lv cn mn top ds : lv_wf lv ->
+    match init_state conv as_pos top lv ds with
+    | Ok st' => exists asg', sp_docs conv as_pos (slv_of lv cn mn) ds [] [] = Some (asg', ls_pend st') /\
+                             inv top lv st' asg' /\ ls_npos st' = 0
+    | Err EParse => sp_docs conv as_pos (slv_of lv cn mn) ds [] [] = None
+    | Err EUnmodelled => True
+    | Err _ => False
+    end.
+  Proof.
+    intro HW. unfold init_state.
+    apply (apply_docs_sim lv cn mn top ds HW
+             {| ls_ns := (if level_has_config as_pos top lv then [(s_config, VNone)] else [])
+                         ++ map (fun a => (a_dest a, a_def a)) (level_args as_pos lv);
+                ls_npos := 0; ls_pend := [] |} []).
+    split.
+    - reflexivity.
+    - intros k r [].
+  Qed.
+
+  (* ---- values: the namespace entry of a parameter is the spec's value -------------------------- *)
+  Lemma assoc_ns_args k args asg :
+    assoc k (ns_args args asg) = option_map (arg_value asg) (find_arg k args).
+  Proof.
+    unfold ns_args. induction args as [|a args IH]; simpl; auto.
+    destruct (str_eqb k (a_dest a)); auto.
+  Qed.
+
+  Lemma assoc_app {A} k (l1 l2 : list (str * A)) :
+    assoc k (l1 ++ l2) = match assoc k l1 with Some x => Some x | None => assoc k l2 end.
+  Proof. induction l1 as [|[k' a] l1 IH]; simpl; auto. destruct (str_eqb k k'); auto. Qed.
+
+  Lemma assoc_entry hcb k (l : ns) : k <> s_config -> assoc k (cfg_entry hcb ++ l) = assoc k l.
+  Proof. intro H. destruct hcb; simpl; auto. rewrite str_eqb_false; auto. Qed.
+
+  Lemma valid_conv s asg p :
+    NoDup (names s) -> In p s -> sp_offered p = true -> asg_valid (args_of_sig as_pos s) asg ->
+    forall r, last_asg (p_name p) asg = Some r -> exists v, conv (sp_ty p) r = Some v.
+  Proof.
+    intros ND HI HO HV r HL. apply last_asg_In in HL. destruct (HV _ _ HL) as [a [v [HF HC]]].
+    rewrite find_arg_spec, (sp_find_In s p ND HI), HO in HF by auto. inversion HF; subst a. eauto.
+  Qed.
+
+  Lemma value_match asg p :
+    sp_offered p = true ->
+    (forall r, last_asg (p_name p) asg = Some r -> exists v, conv (sp_ty p) r = Some v) ->
+    match sp_value conv asg p with
+    | Some v => arg_value asg (mk_arg as_pos p) = v
+    | None => arg_value asg (mk_arg as_pos p) = VNone /\ sp_required p = true
+    end.
+  Proof.
+    intros HO HC. unfold sp_value, arg_value. rewrite HO. cbn [a_dest a_ty a_def mk_arg].
+    destruct (last_asg (p_name p) asg) as [r|].
+    - destruct (HC r eq_refl) as [v Hv]. rewrite Hv. reflexivity.
+    - unfold sp_required. destruct (sp_default p); auto.
+  Qed.
+
+  Lemma assoc_param s asg p :
+    NoDup (names s) -> In p s ->
+    assoc (p_name p) (ns_args (args_of_sig as_pos s) asg) =
+    if sp_offered p then Some (arg_value asg (mk_arg as_pos p)) else None.
+  Proof.
+    intros ND HI. rewrite assoc_ns_args, find_arg_spec, (sp_find_In s p ND HI) by auto.
+    destruct (sp_offered p); reflexivity.
+  Qed.
+
+  Lemma forallb_ext_in {A} (f g : A -> bool) l : (forall x, In x l -> f x = g x) -> forallb f l = forallb g l.
+  Proof.
+    induction l as [|x l IH]; simpl; auto. intro H. rewrite H by auto. rewrite IH; auto.
+  Qed.
+
+  Lemma forallb_map_filter {A B} (f : B -> bool) (g : A -> B) (h : A -> bool) l :
+    forallb f (map g (filter h l)) = forallb (fun x => negb (h x) || f (g x)) l.
+  Proof.
+    induction l as [|x l IH]; simpl; auto. destruct (h x); simpl; rewrite IH; auto.
+  Qed.
+
+  Lemma check_required_spec s asg hcb :
+    NoDup (names s) -> ~ In s_config (names s) -> asg_valid (args_of_sig as_pos s) asg ->
+    check_required (args_of_sig as_pos s) (cfg_entry hcb ++ ns_args (args_of_sig as_pos s) asg) =
+    sp_complete conv s asg.
+  Proof.
+    intros ND NC HV. unfold check_required, sp_complete.
+    rewrite args_of_sig_spec at 1. rewrite forallb_map_filter.
+    apply forallb_ext_in. intros p HI. cbn [a_req a_dest mk_arg].
+    destruct (sp_offered p) eqn:HO.
+    - cbn [negb orb]. rewrite assoc_entry by (intro X; apply NC; rewrite <- X; apply in_map; exact HI).
+      rewrite (assoc_param s asg p ND HI), HO.
+      pose proof (value_match asg p HO (valid_conv s asg p ND HI HO HV)) as HM.
+      destruct (sp_value conv asg p) as [v|].
+      + rewrite HM. reflexivity.
+      + destruct HM as [HM _]. rewrite HM. reflexivity.
+    - unfold sp_offered in HO. apply orb_false_iff in HO. destruct HO as [HO _]. rewrite HO. reflexivity.
+  Qed.
+
+  Lemma bind_params_spec s0 asg :
+    NoDup (names s0) -> sig_guard2 s0 = true -> asg_valid (args_of_sig as_pos s0) asg ->
+    sp_complete conv s0 asg = true ->
+    forall s, (forall p, In p s -> In p s0) ->
+    exists b, sp_bind conv s asg = Some b /\ bind_params s (ns_args (args_of_sig as_pos s0) asg) = Ok b.
+  Proof.
+    intros ND HG HV HC. induction s as [|p s IH]; intro HS.
+    - exists []. auto.
+    - destruct IH as [b [Hb1 Hb2]]; [intros; apply HS; right; auto|].
+      assert (HI : In p s0) by (apply HS; left; auto).
+      cbn [sp_bind bind_params]. rewrite Hb1, Hb2. rewrite (assoc_param s0 asg p ND HI).
+      unfold sp_complete in HC. rewrite forallb_forall in HC. specialize (HC _ HI).
+      destruct (sp_offered p) eqn:HO.
+      + pose proof (value_match asg p HO (valid_conv s0 asg p ND HI HO HV)) as HM.
+        destruct (sp_value conv asg p) as [v|].
+        * rewrite HM. exists ((p_name p, v) :: b). auto.
+        * destruct HM as [_ HM]. rewrite HM in HC. discriminate.
+      + assert (HD : sp_value conv asg p = sp_default p) by (unfold sp_value; rewrite HO; reflexivity).
+        rewrite HD.
+        assert (HP : p_default p = sp_default p /\ exists v, sp_default p = Some v).
+        { unfold sp_offered in HO. apply orb_false_iff in HO. destruct HO as [HR HP]. apply negb_false_iff in HP.
+          unfold sig_guard2 in HG. apply negb_true_iff in HG.
+          assert (HX : priv_opt_nodefault p = false).
+          { destruct (priv_opt_nodefault p) eqn:E; auto.
+            assert (existsb priv_opt_nodefault s0 = true) by (apply existsb_exists; eauto). congruence. }
+          unfold priv_opt_nodefault in HX. rewrite starts_underscore_eq, HP, is_optional_eq in HX.
+          unfold sp_required in HR. unfold sp_default in *.
+          destruct (p_default p) as [v|]; [split; eauto|].
+          destruct (sp_is_opt (p_ty p)); simpl in *; discriminate. }
+        destruct HP as [HP1 [v HP2]]. rewrite HP1, HP2. exists ((p_name p, v) :: b). auto.
+  Qed.
+
+  Lemma keys_ns_args args asg : map fst (ns_args args asg) = map a_dest args.
+  Proof. unfold ns_args. rewrite map_map. reflexivity. Qed.
+
+  Lemma call_sim s asg :
+    NoDup (names s) -> sig_guard2 s = true -> asg_valid (args_of_sig as_pos s) asg ->
+    sp_complete conv s asg = true ->
+    exists b, sp_finish conv s asg = Some b /\ py_call s (ns_args (args_of_sig as_pos s) asg) = Ok b.
+  Proof.
+    intros ND HG HV HC. destruct (bind_params_spec s asg ND HG HV HC s) as [b [H1 H2]]; auto.
+    exists b. unfold sp_finish, py_call. rewrite HC. split; auto.
+    assert (HE : existsb (fun kv : str * value => negb (has_param (fst kv) s))
+                         (ns_args (args_of_sig as_pos s) asg) = false).
+    { destruct (existsb _ _) eqn:E; auto. apply existsb_exists in E. destruct E as [[k v] [HI HN]].
+      apply negb_true_iff in HN. apply has_param_false in HN. exfalso. apply HN. simpl.
+      assert (In k (map fst (ns_args (args_of_sig as_pos s) asg))) by (change k with (fst (k, v)); apply in_map; auto).
+      rewrite keys_ns_args in H. apply in_map_iff in H. destruct H as [a [Ha1 Ha2]]. subst k.
+      eapply dests_subset; eauto. }
+    rewrite HE. exact H2.
+  Qed.
 End Sim.
